@@ -512,7 +512,10 @@ func checkTranslate(c *Ctx) {
 					}
 				}
 				if raw {
-					c.bad("SHAPE-XLATE", "Translate:lookup=table[ToUpper(window)]", ow.Pos(), "on some path the window is looked up as typed, without strings.ToUpper: lower- or mixed-case codons on that path miss the table (letter case must be irrelevant)")
+					// which windows take the as-typed path decides it (a helper that hands back
+					// windows without lower-case letters as they are is the same function): the
+					// letter-case taint under DEPEND judges that, this term rule does not
+					c.undecided("SHAPE-XLATE", "Translate:lookup=table[ToUpper(window)]", ow.Pos(), "on some path the window is looked up as typed, without strings.ToUpper; whether only windows that are already upper case take that path is not decided here")
 					goto emitted
 				}
 			}
